@@ -136,7 +136,7 @@ def main():
          "setup_cmd": "cd /verif/harness && cargo build --offline",
          "hooks": {"guard": "gluon_verif",
                    "enable": "rustflags --cfg gluon_verif in /verif/harness/.cargo/config.toml (the harness crate has path dependencies on /repo, so every check rebuilds gluon from /repo's working tree with hooks on)",
-                   "baseline_off_cmd": "cd /repo && cargo nextest run --workspace --no-fail-fast --test-threads 8 --offline || cargo test --workspace --no-fail-fast --offline",
+                   "baseline_off_cmd": "cd /repo && cargo nextest run --workspace --no-fail-fast --tool-config-file pb:/w/lib/nextest.toml --profile pb --test-threads 8 --offline || cargo test --workspace --no-fail-fast --offline",
                    "source_commits": hook_commits, "add_only": True},
          "engines": [{"name": "tlc", "path": "/opt/veriftools/tla/tla2tools.jar", "serves_properties": sorted(CHECKS), "kind_free_text": "explicit-state model checker for the TLA+ specs in /verif/spec"},
                      {"name": "gvh", "path": "/verif/harness", "serves_properties": sorted(CHECKS), "kind_free_text": "Rust conformance harness (replays TLC behaviours into gluon, records traces from gluon)"}],
